@@ -15,8 +15,13 @@ import (
 // requestIDKey renders a JSON-RPC request id as the key under which a pending request is
 // tracked. Locally generated ids are int64 while the same id decoded from a JSON message is a
 // float64; "%v" prints the latter in exponent form from 1e6 on ("1e+06"), so the two renderings
-// stop matching. Integral floats are therefore rendered as integers.
+// stop matching. Integral floats are therefore rendered as integers, and string ids are kept
+// apart from numeric ones.
 func requestIDKey(id interface{}) string {
+	if str, ok := id.(string); ok {
+		// JSON-RPC distinguishes the string "2" from the number 2.
+		return "s:" + str
+	}
 	if f, ok := id.(float64); ok && f == math.Trunc(f) && math.Abs(f) < 1<<63 {
 		return strconv.FormatInt(int64(f), 10)
 	}
